@@ -425,6 +425,8 @@ def render(c, ind, as_pure=False):
             return render(c[2], ind)                      # bind x <- e; Some x  =  e
         inner = render(c[2], ind + 1)
         one = " ".join(inner.split())
+        if one.startswith(("if ", "let ", "match ")):
+            one = "(%s)" % one
         head = "match %s with" % one if len(one) < 110 else "match (\n%s) with" % inner
         return sp + "%s\n%s| None => None\n%s| Some %s =>\n%s\n%send" % (head, sp, sp, pat(c[1], True), render(c[3], ind + 1), sp)
     if k == "loopres":
@@ -557,6 +559,8 @@ class Fn:
             if v[3] is not None:
                 return "(ofZ O (%d))" % v[3] if v[3] < 0 else "(ofZ O %d)" % v[3]
             return "(ofZ O (Z.of_nat %s))" % par(v[1])
+        if v[0] == "bool":                  # the int 0 / 1 a comparison yields, converted
+            return "(if %s then (ofZ O %d) else (ofZ O %d))" % ((v[1], 0, 1) if v[2] else (v[1], 1, 0))
         self.bad("a real value is needed, got %s" % v[0], n)
 
     def to_int(self, v, n):
@@ -1021,6 +1025,8 @@ class Fn:
         at, bt = self.to_int(a, n), self.to_int(b, n)
         w, s = ty
         lim = 1 << (w - 1 if s else w)
+        if getattr(self, "fuel_probe", False) and op in ("+", "*", "-"):
+            return ("int", "(%s %s %s)" % (at, op, bt), ty, None)
         if a[3] is not None and b[3] is not None:
             val = {"+": a[3] + b[3], "*": a[3] * b[3], "-": a[3] - b[3],
                    "/": a[3] // b[3] if b[3] else None, "%": a[3] % b[3] if b[3] else None}.get(op)
@@ -1661,10 +1667,12 @@ class Fn:
             p, e = [], dict(env)
             save = self.touch
             self.touch = None
+            self.fuel_probe = True
             try:
                 v = self.expr(x, e, p)
             finally:
                 self.touch = save
+                self.fuel_probe = False
             if p or v[0] not in ("int", "ptr"):
                 return None
             return v[1] if v[0] == "int" else v[2]
@@ -1682,7 +1690,7 @@ class Fn:
                 if op == ">":
                     return "(S (%s - %s))" % (l, r)
                 if op == "<=":
-                    return "(S (S (%s - %s)))" % (r, l)
+                    return "(S (S %s))" % r if l == "0" else "(S (S (%s - %s)))" % (r, l)
                 if op == ">=":
                     return "(S (S (%s - %s)))" % (l, r)
                 if l == "0" or r == "0":
